@@ -1,7 +1,12 @@
 #!/bin/sh
-# usage: seed_run.sh <patch.diff> <check args...>   -- applies the patch to /repo, runs ./check, reverts
+# usage: seed_run.sh <patch.diff> <Cxx> <check args...>   -- applies the patch to /repo, runs ./check, reverts; the evidence file of the
+# property is put back afterwards (evidence committed must come from the unchanged tree)
 P="$1"; shift
+ID="$1"
 git -C /repo apply "$P" || exit 3
-cd /verif; ./check "$@" 2>&1 | tail -6; RC=$?
+cd /verif
+cp evidence/$ID.json /tmp/seed_run_evidence_$ID.json 2>/dev/null
+./check "$@" 2>&1 | tail -6; RC=$?
 git -C /repo checkout -- .
+cp /tmp/seed_run_evidence_$ID.json evidence/$ID.json 2>/dev/null
 git -C /repo status --short | head -3
